@@ -175,7 +175,7 @@ func (m *model) onMsg(msg ref.Msg, ext map[string]uint8) string {
 		}
 		k := key{msg.Index, msg.Begin}
 		if _, dup := m.outstanding[k]; dup {
-			if m.lostCancel[k] && (stats.Excl("c11-cancel-lost-when-queue-full") || os.Getenv("VERIF_PROPERTY") == "C09") {
+			if m.lostCancel[k] && !strictCancel && (stats.Excl("c11-cancel-lost-when-queue-full") || os.Getenv("VERIF_PROPERTY") == "C09") {
 				// (C09 borrows this harness for its conservation invariant; the
 				// finding is C11's and is reported there)
 				// region of the recorded finding: counted, not failed
@@ -956,7 +956,14 @@ func TestReg_c11_cancel_lost_when_queue_full(t *testing.T) {
 	cancelCongested(t, 5, 6)
 }
 
+// strictCancel: the fixed scenarios know how full the queue is; the tolerance
+// that keeps the generative search out of the recorded finding's region does
+// not apply to them
+var strictCancel bool
+
 func cancelCongested(t *testing.T, from, to int) {
+	strictCancel = true
+	defer func() { strictCancel = false }()
 	for variant := from; variant < to; variant++ {
 		steps := []step{{Kind: "r.haveall"}, {Kind: "r.unchoke"}, {Kind: "t.request", L: []int{0, 4}}, {Kind: "sleep", D: time.Second},
 			// (one message makes the writer flush and block on the connection; what
